@@ -445,7 +445,11 @@ class Coordinator(object):
             return result
 
         def rejoin_d_errback(result):
+            # e.g. the topic metadata could not be loaded: retry as for any
+            # other failed step of the join
             log.error("%s error during join_and_sync: %s", self, result)
+            if result.check(KafkaError):
+                return self.rejoin_after_error(result, label="join_and_sync")
 
         self._rejoin_d = d = self._join_and_sync()
         d.addBoth(cleanup_rejoin_d).addErrback(rejoin_d_errback)
